@@ -740,8 +740,13 @@ class Folder:
         if isinstance(st, ast.AugAssign):
             cur = self.expr(st.target, env, m)
             v = self.expr(st.value, env, m)
+            import operator as _op
+            ops_ = {ast.Add: _op.add, ast.Sub: _op.sub, ast.Mult: _op.mul, ast.FloorDiv: _op.floordiv, ast.Mod: _op.mod, ast.BitOr: _op.or_, ast.BitAnd: _op.and_}
             try:
-                nv = cur + v if isinstance(st.op, ast.Add) and not is_unknown(cur) and not is_unknown(v) else Unknown("aug")
+                f_ = ops_.get(type(st.op))
+                plain = (int, float, str, bytes, list, tuple, dict, set)
+                nv = f_(cur, v) if f_ is not None and isinstance(cur, plain) and isinstance(v, plain) and not isinstance(cur, (list, dict, set)) else (
+                    cur + v if isinstance(st.op, ast.Add) and not is_unknown(cur) and not is_unknown(v) else Unknown("aug"))
             except Exception:
                 nv = Unknown("aug")
             self._assign(st.target, nv, env, m)
